@@ -493,3 +493,67 @@ def r10(rr, repo):
 def r11(rr, repo):
     from .c10 import r11 as c10r11
     c10r11(rr, repo)
+
+
+@rule('C09.R12', "decision table of Frame.from_blob, the constructor the decoder builds every image frame with: the blob is kept as the cached JPEG exactly when it starts with the JPEG magic; with both dimensions "
+                 "declared AND a JPEG nothing is decoded (image pending, shape = the declared one: (h, w) for GRAY, (h, w, 3) otherwise); in every other case the blob is decoded with the declared format and "
+                 "the shape is the decoded one; the label is the declared format or BGR; the frame that is returned is the one that was filled; Frame.decode returns what imdecode produced and raises when it produced nothing")
+def r12(rr, repo):
+    from .c10 import acc_paths
+    mod, fn, paths = acc_paths(repo, 'from_blob')
+    rr.paths += len(paths)
+    done = [p for p in paths if p.outcome is not None and p.outcome[0] == 'return']
+    rr.floor('completed paths of Frame.from_blob', len(done), 6, mod, fn)
+    MAGIC = "b'\\xff\\xd8'"
+    rows = set()
+    for p in done:
+        st = {}
+        for e in p.events:
+            if e.kind == 'store' and '._Frame__' in e.term:
+                st[e.term.split('._Frame__')[1]] = e
+        fr = [e for e in p.events if e.kind == 'bind' and e.args and e.args[0].startswith('Frame(')]
+        ret = p.outcome[1]
+        rr.ob('from_blob returns the frame it built and filled', bool(fr) and ret is not None and all(e.term.startswith(fr[0].args[0] + '.') for e in st.values()) and U(ret) in (fr[0].term, fr[0].args[0]), mod, fn,
+              witness=f'returns {U(ret) if ret is not None else None}; filled {sorted(st)}', key='blob-returns-built')
+        if not {'jpg', 'image', 'shapef'} <= set(st):
+            rr.ob('from_blob sets the cached JPEG, the image and the shape on every path', False, mod, fn, witness=f'sets {sorted(st)}: {p.pc_text()[:100]}', key='blob-complete')
+            continue
+        NB = 'bytearray(memoryview(blob))'       # on the path for non-bytes input the terms name the converted blob
+        jpg = st['jpg'].args[0].replace(NB, 'blob').replace(' ', '')
+        rr.ob("the blob is kept as the cached JPEG exactly when it starts with the JPEG magic b'\\xff\\xd8' (otherwise: no encoding yet)", jpg == f"blobifblob[:2]=={MAGIC}elseFalse".replace(' ', ''), mod, st['jpg'].node,
+              witness=st['jpg'].args[0][:80], key='blob-jpg-iff-magic')
+        isj = [v for k, v in p.pc if k.replace(NB, 'blob').replace(' ', '') in (f"eq({MAGIC},blob[:2])", f"eq(blob[:2],{MAGIC})")]
+        hn, wn = p.facts.get('isnone(height)'), p.facts.get('isnone(width)')
+        dims = (hn is False and wn is False)
+        decoded = [e for e in p.events if e.kind == 'call' and e.term == 'Frame.decode']
+        img, shp = st['image'].args[0].replace(NB, 'blob'), st['shapef'].args[0].replace(NB, 'blob').replace(' ', '')
+        if dims and isj and isj[-1] is True:
+            rows.add('lazy')
+            want = "((height,width)ifformat=='GRAY'else(height,width,3),formator'BGR')"
+            rr.ob('JPEG with both dimensions declared: nothing is decoded, the image is pending (False) and the shape is the declared one - (h, w) for GRAY, (h, w, 3) otherwise - labelled with the declared format or BGR',
+                  not decoded and img == 'False' and shp == want, mod, st['shapef'].node, witness=f'image={img}; shape={st["shapef"].args[0][:90]}; decode calls: {len(decoded)}', key='blob-lazy-row')
+        else:
+            rows.add('eager')
+            okd = len(decoded) == 1 and [a.strip().replace(NB, 'blob') for a in decoded[0].args] == ['blob', 'format'] and img == 'Frame.decode(blob, format)' and shp == "(Frame.decode(blob,format).shape,formator'BGR')"
+            rr.ob('otherwise the blob is decoded once with the declared format, the frame holds that image and its shape, labelled with the declared format or BGR', okd, mod, st['image'].node,
+                  witness=f'image={img[:40]}; shape={st["shapef"].args[0][:70]}', key='blob-eager-row')
+            if hn is None or (hn is False and wn is None) or not isj:
+                rr.ob('the choice between pending and decoded rests on both dimensions and on the JPEG magic', False, mod, fn, witness=p.pc_text()[:160], key='blob-choice-untested')
+    rr.ob('from_blob has a pending (lazy) and a decoded (eager) row', rows == {'lazy', 'eager'}, mod, fn, witness=str(sorted(rows)), key='blob-rows')
+    # non-bytes input is copied into a bytearray first; the format is validated before anything is built
+    nb = [p for p in done if p.facts.get('truthy(isinstance(blob, (bytes, bytearray)))') is False]
+    rr.floor('paths for a blob that is not bytes / bytearray', len(nb), 1, mod, fn)
+    for p in nb[:1]:
+        conv = [e for e in p.events if e.kind == 'bind' and e.term == 'blob']
+        rr.ob('a blob that is not bytes / bytearray is copied into a bytearray before it is looked at', bool(conv) and conv[0].args[0].replace(' ', '') == 'bytearray(memoryview(blob))', mod, fn, witness=conv[0].args[0] if conv else 'not converted', key='blob-normalised')
+    for p in done[:1]:
+        calls = [e.term for e in p.events if e.kind == 'call']
+        rr.ob('the declared format is validated before the frame is built', 'Frame.validate_format' in calls and calls.index('Frame.validate_format') < calls.index('Frame'), mod, fn, witness=str(calls[:4]), key='blob-format-validated')
+    # Frame.decode
+    dmod, dfn, dpaths = acc_paths(repo, 'decode')
+    rets = [p for p in dpaths if p.outcome is not None and p.outcome[0] == 'return']
+    raises = [p for p in dpaths if p.outcome is not None and p.outcome[0] == 'raise']
+    okr = bool(rets) and all(p.outcome[1] is not None and 'imdecode(' in U(p.outcome[1]) or (p.outcome[1] is not None and U(p.outcome[1]) == 'image') for p in rets) and \
+        all(any(k.startswith('isnone(') and 'imdecode' in k and v is False for k, v in p.pc) for p in rets)
+    okx = bool(raises) and all(any(k.startswith('isnone(') and 'imdecode' in k and v is True for k, v in p.pc) for p in raises)
+    rr.ob('Frame.decode returns the image imdecode produced, and raises exactly when imdecode produced nothing', okr and okx, dmod, dfn, witness=f'{len(rets)} returning, {len(raises)} raising paths', key='decode-returns-image')
